@@ -121,6 +121,25 @@ void condition_variable::notify_one() noexcept {
 }
 }
 
+// chaos scheduling for the replay of schedule-dependent counterexamples: with $VP_CHAOS=<seed> every mutex release is
+// followed, pseudo-randomly, by a short sleep, which hands the processor to the other session threads at that point
+#include <dlfcn.h>
+#include <unistd.h>
+static unsigned g_chaos = 0; static int g_chaos_init = 0;
+extern "C" int pthread_mutex_unlock(pthread_mutex_t * m) {
+    typedef int (*fn_t)(pthread_mutex_t *);
+    static fn_t real = nullptr;
+    if (!real) real = reinterpret_cast<fn_t>(dlsym(RTLD_NEXT, "pthread_mutex_unlock"));
+    int r = real(m);
+    if (!g_chaos_init) { const char * p = getenv("VP_CHAOS"); g_chaos = p ? static_cast<unsigned>(strtoul(p, nullptr, 0)) : 0; g_chaos_init = 1; }
+    if (g_chaos) {
+        unsigned x = __atomic_add_fetch(&g_chaos, 0x9E3779B9u, __ATOMIC_RELAXED);
+        x ^= x >> 15; x *= 0x2C1B3C6Du; x ^= x >> 12;
+        if ((x & 3) == 0) usleep(300);
+    }
+    return r;
+}
+
 extern "C" void VP_ENTRY();
 int main() {
     setvbuf(stdout, nullptr, _IOLBF, 0);
